@@ -20,7 +20,7 @@ from typing import Any, Dict, List, Optional, Tuple
 
 from ..core import Ctx, MachineryError, chunks, tla
 
-KINDS = ["def", "adef", "cm", "sm", "prop", "setter", "class", "exc", "assign", "oldcm", "oldsm", "if", "ifmain", "try", "with", "for", "while"]
+KINDS = ["docstr", "def", "adef", "cm", "sm", "prop", "setter", "class", "exc", "assign", "oldcm", "oldsm", "if", "ifmain", "try", "with", "for", "while"]
 CFG = """SPECIFICATION Spec
 CONSTANTS MaxN = {maxn}
   Names = {names}
@@ -87,6 +87,9 @@ def render(p: Dict[str, Any]) -> str:
             return
         elif k in ("oldcm", "oldsm"):
             out.append(f"{sp}{name} = {'classmethod' if k == 'oldcm' else 'staticmethod'}({name})")
+            return
+        elif k == "docstr":
+            out.append(f"{sp}'''adoc:{i}'''")
             return
         else:
             out.append(sp + {"if": ["if True:", "if 1 == 1:", "if __name__ != '__main__':", "if __name__ == 'm' or True:"][i % 4],
@@ -169,8 +172,14 @@ def _pd_tables(sources: List[str]) -> List[Dict[str, Any]]:
                 return None
         return doc_site(o.docstring)
 
+    def adoc(o: Any) -> int:
+        d = o.docstring or ""
+        return int(d.split(":")[1]) if d.startswith("adoc:") else 0
+
     def extra(o: Any) -> Dict[str, Any]:
         e: Dict[str, Any] = {"doc": o.docstring}
+        if isinstance(o, model.Attribute):
+            e["adoc"] = adoc(o)
         if isinstance(o, model.Attribute) and o.kind is not K.PROPERTY and o.annotation is not None:
             try:
                 e["type"] = ast.unparse(o.annotation)
@@ -316,7 +325,30 @@ def kf_setter_member(w: Dict[str, Any]) -> bool:
                             and d["got"].get("node") and p["kind"][d["got"]["node"] - 1] == "setter" for d in ds)
 
 
+def kf_adoc_not_adjacent(w: Dict[str, Any]) -> bool:
+    """Known finding: ASTBuilder.currentAttr survives flow statements, `pass`, imports and property definitions, so a bare
+    string that does NOT immediately follow the assignment still documents the variable, and a string after a property
+    definition replaces the property's docstring.  Matches only when every difference is such an attachment."""
+    p = w["program"]
+    if not w["diff"]:
+        return False
+    for d in w["diff"]:
+        exp, got = d.get("expected") or {}, d.get("got") or {}
+        if d.get("what") == "attribute docstring":
+            j = got.get("adoc")
+            if not j or p["kind"][j - 1] != "docstr" or exp.get("adoc") == j:
+                return False
+            continue
+        if exp.get("kind") == "property" and got.get("kind") == "property" and got.get("node") is None:
+            i = exp.get("node")
+            if i and any(k == "docstr" for k in p["kind"][i:]):
+                continue
+        return False
+    return True
+
+
 def run(ctx: Ctx) -> int:
+    ctx.register_matcher("attribute-docstring-not-adjacent", kf_adoc_not_adjacent)
     ctx.register_matcher("assignment-after-definition-ignored", kf_assign_after_def)
     ctx.register_matcher("property-setter-documented-as-extra-member", kf_setter_member)
     maxn = 2 if ctx.quick else 3
@@ -326,12 +358,15 @@ def run(ctx: Ctx) -> int:
     progs = r.printed
     if ctx.quick:
         # a sample of 3-statement programs on top of the exhaustive 2-statement space
-        r3 = ctx.tlc("Builder", CFG.format(maxn=3, names=tla({"a"}), kinds=tla({"def", "cm", "prop", "setter", "class", "assign", "oldsm", "if", "ifmain", "try"})),
+        r3 = ctx.tlc("Builder", CFG.format(maxn=3, names=tla({"a"}), kinds=tla({"docstr", "def", "cm", "prop", "setter", "class", "assign", "oldsm", "if", "ifmain", "try"})),
                      workers="auto", check=True, timeout=3000)
         progs = progs + r3.printed
+        # re-assignments and their docstrings: every 4-statement program over assignments, strings, a block and a def
+        r4 = ctx.tlc("Builder", CFG.format(maxn=4, names=tla({"a", "b"}), kinds=tla({"assign", "docstr", "try"})), workers="auto", check=True, timeout=3000)
+        progs = progs + [p for p in r4.printed if p["n"] == 4]
     else:
         # every 4-statement program over one name and the kinds that interact (duplicates, wrapping, properties, blocks)
-        r4 = ctx.tlc("Builder", CFG.format(maxn=4, names=tla({"a"}), kinds=tla({"def", "cm", "prop", "setter", "class", "assign", "oldsm", "if", "ifmain"})),
+        r4 = ctx.tlc("Builder", CFG.format(maxn=4, names=tla({"a"}), kinds=tla({"docstr", "def", "cm", "prop", "setter", "class", "assign", "oldsm", "if", "ifmain"})),
                      workers="auto", check=True, timeout=6000)
         progs = progs + [p for p in r4.printed if p["n"] == 4]
     ctx.exhaustive = True
@@ -363,21 +398,42 @@ def run(ctx: Ctx) -> int:
                                "source": src, "exception": d["crash"], "diff": [], "key": "crash:" + last[:80]})
                 continue
             real = slim(d)
-            if real != spec_table(p["pd"]):
-                ctx.drift_note({"source": src, "spec_documented": spec_table(p["pd"]), "real": real})
+            pdm = spec_table(p["pd"])
+            for s0, ns0 in real.items():          # a property documented by a later string lost its site marker
+                for n0, e0 in ns0.items():
+                    if e0["kind"] == "property" and e0["node"] is None and d[s0][n0].get("adoc") and pdm.get(s0, {}).get(n0, {}).get("kind") == "property":
+                        real_for_drift = True
+            real_cmp = {s0: {n0: (pdm[s0][n0] if (e0["kind"] == "property" and e0["node"] is None and d[s0][n0].get("adoc") and n0 in pdm.get(s0, {})) else e0)
+                             for n0, e0 in ns0.items()} for s0, ns0 in real.items()}
+            if real_cmp != pdm:
+                ctx.drift_note({"source": src, "spec_documented": pdm, "real": real})
             diffs = []
             for s in sorted(set(py) | set(real)):
                 a, b = py.get(s, {}), real.get(s, {})
                 for name in sorted(set(a) | set(b)):
                     if a.get(name) != b.get(name):
                         diffs.append({"scope": s, "name": name, "expected": a.get(name), "got": b.get(name)})
+            # attribute docstrings: which string statement documents which variable (reference: Builder.tla RefVarDoc)
+            want = {e["scope"]: {x["name"]: x["doc"] for x in e["docs"]} for e in p["pydoc"]}
+            model_says = {e["scope"]: {x["name"]: x["doc"] for x in e["docs"]} for e in p["pddoc"]}
+            got_docs = {int(s): {nme: e.get("adoc", 0) for nme, e in ns.items() if e["kind"] in ("variable", "property")} for s, ns in d.items()}
+            for s in want:
+                for nme, dj in want[s].items():
+                    g = got_docs.get(s, {}).get(nme)
+                    if g is not None and real.get(s, {}).get(nme) == py.get(s, {}).get(nme) and g != dj:
+                        diffs.append({"scope": s, "name": nme, "expected": {"adoc": dj}, "got": {"adoc": g}, "what": "attribute docstring"})
+            for s in model_says:
+                for nme, dj in model_says[s].items():
+                    g = got_docs.get(s, {}).get(nme)
+                    if g is not None and g != dj:
+                        ctx.drift_note({"what": "attribute docstring", "source": src, "scope": s, "name": nme, "spec": dj, "real": g})
             # docstrings and literal types (text level, CPython is the reference)
             for s, ns in c.items():
                 for name, e in ns.items():
                     g = d.get(int(s), {}).get(name)
                     if not g or g["node"] != e["node"] or g["kind"] != e["kind"]:
                         continue
-                    if "doc" in e and e["doc"] != g.get("doc"):
+                    if "doc" in e and e["doc"] != g.get("doc") and not (g.get("adoc") and e["kind"] == "property"):
                         diffs.append({"scope": int(s), "name": name, "expected": {"doc": e["doc"]}, "got": {"doc": g.get("doc")}, "what": "docstring"})
                     if "type" in e and g.get("type") is not None and g["type"].split("[")[0] != e["type"]:
                         diffs.append({"scope": int(s), "name": name, "expected": {"type": e["type"]}, "got": {"type": g["type"]}, "what": "literal type"})
@@ -416,6 +472,16 @@ def run(ctx: Ctx) -> int:
                                                                           "sched": res["sched"], "project": procrun.strip(res["project"])},
                                "key": f"mmkind:{res['project']['family']}:{res['project']['meta']}:{k}"})
     ctx.extra["multi_module_classes_compared_with_cpython"] = mm_classes
+    # ---- source files that are not plain UTF-8 (coding cookie, byte order mark)
+    from .. import encodings_check
+    try:
+        enc_bad = encodings_check.check(ctx.scratch)
+    except RuntimeError as e:
+        raise MachineryError(str(e))
+    for wit in enc_bad:
+        ctx.violation({"invariant": "DocumentedIsPyExec", "what": "source encoding", **wit, "diff": [], "program": {}, "source": "",
+                       "key": "encoding:" + wit["module"]})
+    ctx.extra["encoded_modules_compared"] = 4
     # negative control: a corrupted real table must differ from the reference
     p0 = next(p for p in progs if p["py"][0]["names"])
     t = spec_table(p0["py"])
@@ -435,6 +501,14 @@ def run(ctx: Ctx) -> int:
 
 def replay(ctx: Ctx, path: str) -> int:
     w = json.load(open(path))
+    if w.get("what") == "source encoding":
+        from .. import encodings_check
+        bad = bool(encodings_check.check(ctx.scratch))
+        print("replay:", "still differs" if bad else "holds now")
+        if bad:
+            print(f"VIOLATION property=C03 replay={path}")
+        ctx.cleanup()
+        return 1 if bad else 0
     if w.get("invariant") == "KindIsWhatPythonGives":
         from .. import projects as P
         o = w["origin"]
